@@ -6,7 +6,7 @@ AREA = "webp"
 COQ_TARGETS = ["theories/Props/C06.vo"]
 COQCHK = ["MS.Props.C06"]
 REQUIRES = ["From Coq Require Import List NArith Bool.", "From Coq.Strings Require Import Byte.",
-            "From MS Require Import Base.Bytes Base.Outcome Base.Prog Webp.Container Webp.Grammar Props.C06.",
+            "From MS Require Import Base.Bytes Base.Outcome Base.Prog Webp.Container Webp.Grammar Webp.Vp8l Props.C06.",
             "Import ListNotations.", "Open Scope N_scope."]
 _Q = ("forall (lossless : N -> N -> bytes -> res unit) (allow lenient : bool) (ms : N) (inp : input) (fuel : nat), ")
 THEOREMS = [
@@ -22,7 +22,7 @@ THEOREMS = [
                             "(f <= f')%nat -> webp_sanitize lossless allow lenient ms inp f <> OutOfFuel -> "
                             "webp_sanitize lossless allow lenient ms inp f' = webp_sanitize lossless allow lenient ms inp f"),
 ]
-XCHECK_N = 0
+XCHECK_N = 24
 EXHAUSTIVE = {"quick": False, "thorough": False}
 NOTES = []
 FLAGSETS_ALL = [f << 1 for f in range(32)]          # the 32 combinations of the five defined VP8X flags
@@ -82,6 +82,31 @@ def oracle(run, pairs):
         ok = (impl == "ok") == (spec == "true")
         out.append((ok, "grammar says %s, implementation says %s" % (spec, impl)))
     return out
+
+
+_KINDS = {"InvalidChunkLayout": "InvalidChunkLayout", "InvalidInput": "WInvalidInput", "TruncatedChunk": "TruncatedChunk",
+          "InvalidVp8lPrefixCode": "InvalidVp8lPrefixCode"}
+
+
+def coq_bool(line, model_out):
+    """the same run evaluated inside Coq (vm_compute) on the extracted model's answer: cross-check of the extraction"""
+    c = W.parse_case(line)
+    if c["len"] > 600 or sum(len(d) for _, d in c["exts"]) > 600:
+        return None
+    exts = "[" + "; ".join("(%d, [%s])" % (o, "; ".join("x%02x" % b for b in d)) for o, d in c["exts"]) + "]"
+    lenient, ms = ("false", "18446744073709551615") if c["reader"] == "strict" else ("true", "18446744073709551615")
+    fuel = sum(len(d) for _, d in c["exts"]) // 8 + 4
+    call = "webp_sanitize lossless_read %s %s %s (input_of_exts %d %s) %d" % ("true" if c["allow"] else "false", lenient, ms, c["len"], exts, fuel)
+    out = canon(model_out)
+    if out == "ok":
+        return "match %s with Ok tt => true | _ => false end" % call
+    if out.startswith("err parse "):
+        k = out.split()[2].split(":")[0]
+        pat = _KINDS.get(k, "_")
+        return "match %s with EParse %s => true | _ => false end" % (call, pat if pat != "_" else "_")
+    if out.startswith("err io"):
+        return "match %s with EIo _ => true | _ => false end" % call
+    return None
 
 
 def search(run, disagreements):
